@@ -127,6 +127,31 @@ impl<'de> serde::Deserialize<'de> for LocaleServerFnOutputClient {
     }
 }
 
+/// Push `value` as a JS string literal that is safe to embed in a `<script>` element:
+/// quotes, backslashes and control characters are escaped, and so is `<` such that the string can't close the script (`</script>`) or open a comment (`<!--`).
+#[cfg(all(feature = "dynamic_load", any(feature = "ssr", feature = "hydrate")))]
+fn push_js_string(buff: &mut String, value: &str) {
+    use std::fmt::Write;
+    buff.push('\"');
+    for c in value.chars() {
+        match c {
+            '\"' => buff.push_str("\\\""),
+            '\\' => buff.push_str("\\\\"),
+            '\n' => buff.push_str("\\n"),
+            '\r' => buff.push_str("\\r"),
+            '\t' => buff.push_str("\\t"),
+            '<' | '\u{2028}' | '\u{2029}' => {
+                let _ = write!(buff, "\\u{:04x}", c as u32);
+            }
+            c if c.is_control() => {
+                let _ = write!(buff, "\\u{:04x}", c as u32);
+            }
+            c => buff.push(c),
+        }
+    }
+    buff.push('\"');
+}
+
 #[cfg(all(feature = "dynamic_load", feature = "ssr"))]
 mod register {
     use super::*;
@@ -178,9 +203,7 @@ mod register {
                     if !std::mem::replace(&mut first, false) {
                         buff.push(',');
                     }
-                    buff.push('\"');
-                    buff.push_str(value);
-                    buff.push('\"');
+                    push_js_string(&mut buff, value);
                 }
                 buff.push_str("]}");
             }
@@ -235,9 +258,7 @@ pub fn init_translations<L: Locale>() -> impl leptos::IntoView {
             if !std::mem::replace(&mut first, false) {
                 buff.push(',');
             }
-            buff.push('\"');
-            buff.push_str(value);
-            buff.push('\"');
+            push_js_string(&mut buff, value);
         }
         buff.push_str("]}");
         L::init_translations(locale, id, values);
